@@ -250,6 +250,7 @@ struct LogFB {
   LD maxLogB = 0;   // largest log of a scaled backward value bhat_t(s)
   LD minLogScale = 0;   // smallest log of a per-site scale factor (probability of site t given the sites before it in its segment)
   LD minLogTmpScale = 0, minLogTmp2Scale = 0;   // smallest finite log(tmp_t(s) * scale_t), log(tmp_t(s) * scale_t^2): products formed by the derivative recursions of RescaledHmmLikelihood
+  LD minLogDen = 0;   // smallest finite log of sum_k exp(lf_{t-1}(k) - max lf_{t-1}) P(k,s): the denominators of the Logsum derivative recursion
   LD minLogBterm = 0;   // smallest finite log of a term e_t(k) P(s,k) bhat_t(k) of the scaled backward recursion
 };
 LogFB refLog(const Ref& r, bool backward) {
@@ -262,7 +263,11 @@ LogFB refLog(const Ref& r, bool backward) {
     for (size_t s = 0; s < n; ++s) {
       LD x;
       if (t == 0 || r.brk[t]) x = logl(r.pi[s]);
-      else { x = NEG_INF; for (size_t k = 0; k < n; ++k) x = lse2(x, o.lf[t - 1][k] + lP[k][s]); }
+      else {
+        x = NEG_INF; for (size_t k = 0; k < n; ++k) x = lse2(x, o.lf[t - 1][k] + lP[k][s]);
+        LD mx = NEG_INF; for (size_t k = 0; k < n; ++k) mx = max(mx, o.lf[t - 1][k]);
+        if (x != NEG_INF) o.minLogDen = min(o.minLogDen, x - mx);
+      }
       o.lf[t][s] = x + logl(r.e[t][s]);
       if (t > 0 && !r.brk[t] && o.lf[t][s] != NEG_INF) o.minLogG = min(o.minLogG, o.lf[t][s] - prevTot);
     }
@@ -639,6 +644,9 @@ DerivGuards derivGuards(vf::Ctx& c, int alg, const Spec& s, const Ref& r, const 
     else if (3 * lg.minLogScale < -690 || lg.minLogTmp2Scale < -690) { c.label("rescaled-derivative-products-underflow(d2)"); if (c.isKnown("C13-rescaled-deriv-underflow")) g.d2ok = false; }
     if (c.isKnown("C13-rescaled-d2-accumulators")) g.d2ok = false;
   } else if (alg == LOGS) {
+    // the derivative recursions of LogsumHmmLikelihood leave log space: weights exp(lf - max lf) below 1e-323 vanish and a state
+    // that is only reachable from such states gets 0/0
+    if (lg.minLogDen < -700) { c.label("logsum-derivative-weights-underflow"); if (c.isKnown("C13-logsum-deriv-underflow")) g.d1ok = g.d2ok = false; }
     if (logsumAliasClass(lg, s.n)) { c.label("logsum-alias-class"); if (c.isKnown("C13-logsum-max-aliasing")) g.d1ok = g.d2ok = false; }
     if (logsumD2Class(s, r, k)) { c.label("logsum-d2-emission-class"); if (c.isKnown("C13-logsum-d2-emission-term")) g.d2ok = false; }
   }
@@ -666,7 +674,9 @@ LAW(L4_derivatives, RC, 2400, 100000, 480, ">=1 break point, or a zero transitio
       double d1 = ob.lik->getFirstOrderDerivative(varName(k));
       c.observe("d1_vs_dual/tol", derivRatio(d1, -rd1));
       CHECK(derivClose(d1, -rd1), who << ": getFirstOrderDerivative(" << varName(k) << ") = " << vf::dec(d1) << " but d(-log L)/d" << varName(k) << " = " << vf::dec(static_cast<double>(-rd1)) << " (dual-number forward recursion in long double)");
+      c.label(alg == LOGS ? "checked:logsum-d1" : "checked:rescaled-d1");
       if (!g.d2ok) continue;
+      c.label(alg == LOGS ? "checked:logsum-d2" : "checked:rescaled-d2");
       double d2 = ob.lik->getSecondOrderDerivative(varName(k));
       c.observe("d2_vs_dual/tol", derivRatio(d2, -rd2));
       CHECK(derivClose(d2, -rd2), who << ": getSecondOrderDerivative(" << varName(k) << ") = " << vf::dec(d2) << " but d2(-log L)/d" << varName(k) << "^2 = " << vf::dec(static_cast<double>(-rd2)));
@@ -797,6 +807,7 @@ LAW(L5_history, RC, 4000, 200000, 520, "a changed parameter value or new break p
     if (order == 1 ? stale1 : (stale2 || (alg == LOGS && stale1))) { c.label("derivative-cache-stale-class"); if (c.isKnown("C13-derivative-cache-stale")) return false; }
     if (order == 2 && alg == RESC && !(h.d1Key == var && !h.changedSinceD1)) { c.label("rescaled-d2-without-d1-class"); if (c.isKnown("C13-rescaled-d2-needs-d1")) return false; }
     Obj fresh = build(cur, alg, chunk); LD rd1, rd2; refDerivs(r, *cur.tab, cur.th, k, rd1, rd2);
+    c.label(alg == LOGS ? (order == 1 ? "checked:logsum-d1" : "checked:logsum-d2") : (order == 1 ? "checked:rescaled-d1" : "checked:rescaled-d2"));
     double f1 = fresh.lik->getFirstOrderDerivative(var);
     if (order == 1) {
       double d1 = ob.lik->getFirstOrderDerivative(var);
@@ -867,6 +878,225 @@ LAW(L5_history, RC, 4000, 200000, 520, "a changed parameter value or new break p
   (void)n;
   c.nt(changeBetweenDerivs || !cur.bp.empty() || hasZero || hasExtreme);
   if (changeBetweenDerivs) c.label("change-between-derivative-queries");
+}
+
+// =================================================================================== L6: built-in transition models
+namespace {
+struct BT {   // a built-in transition object and the model of its parameter values
+  bool full = true; size_t n = 1; shared_ptr<Alpha> a; shared_ptr<HmmTransitionMatrix> T; FullHmmTransitionMatrix* F = nullptr;
+  vector<string> names; vector<double> vals;
+  // getPij() was called before the first getEquilibriumFrequencies() since the last parameter notification (or construction)
+  bool eqPoisoned = false, eqComputed = false;
+  void notified() { eqPoisoned = eqComputed = false; }
+  double& val(const string& nm) { for (size_t q = 0; q < names.size(); ++q) if (names[q] == nm) return vals[q]; throw Exception("internal: no parameter " + nm); }
+};
+BT makeBT(bool full, size_t n) {
+  BT b; b.full = full; b.n = n; b.a = make_shared<Alpha>(n);
+  if (full) { auto f = make_shared<FullHmmTransitionMatrix>(b.a, ""); b.F = f.get(); b.T = f; } else b.T = make_shared<AutoCorrelationTransitionMatrix>(b.a, "");
+  const ParameterList& pl = b.T->getParameters();
+  for (size_t q = 0; q < pl.size(); ++q) { b.names.push_back(pl[q].getName()); b.vals.push_back(pl[q].getValue()); }
+  return b;
+}
+string fullName(size_t row, size_t k) { return to_string(row + 1) + ".theta" + to_string(k + 1); }
+string acName(size_t i) { return "lambda" + to_string(i + 1); }
+// the matrix the documentation assigns to the current parameter values (Simplex global ratio / auto-correlation)
+vector<vector<LD>> documentedMatrix(BT& b) {
+  vector<vector<LD>> P(b.n, vector<LD>(b.n));
+  for (size_t i = 0; i < b.n; ++i) {
+    if (b.full) { LD rest = 1; for (size_t k = 0; k + 1 < b.n; ++k) { LD th = b.val(fullName(i, k)); P[i][k] = rest * th; rest *= 1 - th; } P[i][b.n - 1] = rest; }
+    else { LD lam = b.val(acName(i)); for (size_t j = 0; j < b.n; ++j) P[i][j] = i == j ? lam : (1 - lam) / static_cast<LD>(b.n - 1); }
+  }
+  return P;
+}
+// row 0 of P^256 (the formula FullHmmTransitionMatrix uses for the "equilibrium"), residual of stationarity, in long double
+LD p256Residual(const vector<vector<LD>>& P) {
+  size_t n = P.size(); vector<vector<LD>> Q = P, R(n, vector<LD>(n));
+  for (int it = 0; it < 8; ++it) { for (size_t i = 0; i < n; ++i) for (size_t j = 0; j < n; ++j) { LD x = 0; for (size_t k = 0; k < n; ++k) x += Q[i][k] * Q[k][j]; R[i][j] = x; } Q = R; }
+  return statResidual(P, Q[0]);
+}
+vector<double> rowToThetas(const vector<double>& row) {  // global ratio, kept strictly inside ]0,1[
+  vector<double> th; double rest = 1;
+  for (size_t k = 0; k + 1 < row.size(); ++k) { double t = rest > 0 ? row[k] / rest : 0.5; t = min(max(t, 1e-9), 1 - 1e-9); th.push_back(t); rest -= row[k]; }
+  return th;
+}
+// target rows: preset 0 uniform, 1 skewed, 2 sticky (slowly mixing), 3 random weights (RC only)
+vector<vector<double>> genRows(vf::Ctx& c, size_t n, int preset) {
+  vector<vector<double>> R(n, vector<double>(n));
+  double stick = preset == 2 ? c.pick({20.0, 200.0, 5000.0}) : 0;
+  for (size_t i = 0; i < n; ++i) {
+    double sum = 0;
+    for (size_t j = 0; j < n; ++j) {
+      double w = 1;
+      if (preset == 1) w = static_cast<double>(1 + ((i + 2 * j) % 4));
+      else if (preset == 2) w = i == j ? stick : 1;
+      else if (preset == 3) w = c.flag() ? static_cast<double>(1 + c.below(8)) : c.logu(1e-4, 1);
+      R[i][j] = w; sum += w;
+    }
+    for (auto& x : R[i]) x /= sum;
+  }
+  return R;
+}
+void checkMatrixQuery(vf::Ctx& c, BT& b, int query, const vector<vector<LD>>& doc) {
+  const char* cls = b.full ? "FullHmmTransitionMatrix" : "AutoCorrelationTransitionMatrix";
+  size_t n = b.n;
+  if (query == 0 || query == 1) {
+    RowMatrix<double> M(n, n);
+    if (query == 0) { const Matrix<double>& G = b.T->getPij(); CHECK(G.getNumberOfRows() == n && G.getNumberOfColumns() == n, cls << ": getPij() is " << G.getNumberOfRows() << "x" << G.getNumberOfColumns()); for (size_t i = 0; i < n; ++i) for (size_t j = 0; j < n; ++j) M(i, j) = G(i, j); if (!b.eqComputed) b.eqPoisoned = true; }
+    else for (size_t i = 0; i < n; ++i) for (size_t j = 0; j < n; ++j) M(i, j) = b.T->Pij(i, j);
+    const char* q = query == 0 ? "getPij()" : "Pij";
+    for (size_t i = 0; i < n; ++i) {
+      LD sum = 0;
+      for (size_t j = 0; j < n; ++j) {
+        CHECK(M(i, j) >= 0, cls << ": " << q << "(" << i << "," << j << ") = " << vf::dec(M(i, j)) << " is negative");
+        CHECK(fabsl(M(i, j) - doc[i][j]) <= ROW_TOL, cls << ": " << q << "(" << i << "," << j << ") = " << vf::dec(M(i, j)) << " but the current parameter values give " << vf::dec(static_cast<double>(doc[i][j])));
+        sum += M(i, j);
+      }
+      c.observe("row_sum/1e-12", static_cast<double>(fabsl(sum - 1)) / ROW_TOL);
+      CHECK(fabsl(sum - 1) <= ROW_TOL, cls << ": row " << i << " of " << q << " sums to " << vf::dec(static_cast<double>(sum)));
+    }
+    return;
+  }
+  // equilibrium frequencies: a probability vector, stationary for the exposed matrix
+  if (!b.full) { c.label("autocorr-equilibrium-class"); if (c.isKnown("C13-autocorr-equilibrium")) return; }
+  if (b.full && b.eqPoisoned) { c.label("full-getPij-before-equilibrium-class"); if (c.isKnown("C13-full-uptodate-flag")) return; }
+  if (b.full && p256Residual(doc) > 1e-10L) { c.label("full-slow-mixing-class"); if (c.isKnown("C13-full-equilibrium-p256")) return; }
+  const vector<double>& eq = b.T->getEquilibriumFrequencies(); if (!b.eqPoisoned) b.eqComputed = true;
+  CHECK(eq.size() == n, cls << ": getEquilibriumFrequencies() has " << eq.size() << " entries for " << n << " states");
+  LD sum = 0; vector<LD> pi(n);
+  for (size_t i = 0; i < n; ++i) { CHECK(eq[i] >= 0 && eq[i] <= 1 + 1e-12, cls << ": equilibrium frequency " << i << " is " << vf::dec(eq[i])); sum += eq[i]; pi[i] = eq[i]; }
+  CHECK(fabsl(sum - 1) <= STAT_TOL, cls << ": equilibrium frequencies sum to " << vf::dec(static_cast<double>(sum)) << " (first " << vf::dec(eq[0]) << ")");
+  LD res = statResidual(doc, pi); c.observe("stationarity/1e-9", static_cast<double>(res) / STAT_TOL);
+  CHECK(res <= STAT_TOL, cls << ": getEquilibriumFrequencies() is not stationary for the exposed matrix: max |pi P - pi| = " << static_cast<double>(res) << " (pi[0] = " << vf::dec(eq[0]) << ")");
+}
+// one round: a parameter change by `route`, then the queries, each checked
+void builtinRound(vf::Ctx& c, BT& b, int route, int preset, const vector<int>& queries, int fixedOnly = -1) {
+  size_t n = b.n;
+  c.desc << " | ";
+  if (route == 0) c.desc << "no change";
+  else if (b.full) {
+    vector<vector<double>> rows = genRows(c, n, preset);
+    if (route == 4) {
+      c.desc << "setTransitionProbabilities" << showRows(rows);
+      RowMatrix<double> M(n, n); for (size_t i = 0; i < n; ++i) for (size_t j = 0; j < n; ++j) M(i, j) = rows[i][j];
+      c.label("full-setTransitionProbabilities-class");
+      if (c.isKnown("C13-full-settransitionprobabilities")) { c.desc << "[not executed: known finding]"; }
+      else {
+        b.F->setTransitionProbabilities(M);
+        for (size_t i = 0; i < n; ++i) { vector<double> th = rowToThetas(rows[i]); for (size_t k = 0; k + 1 < n; ++k) b.val(fullName(i, k)) = th[k]; }
+        b.notified();
+        // the object's own parameter list must describe the matrix that was set
+        for (size_t q = 0; q < b.names.size(); ++q) { double v = b.T->getParameterValue(b.names[q]); CHECK(std::fabs(v - b.vals[q]) <= 1e-9, "FullHmmTransitionMatrix: after setTransitionProbabilities parameter " << b.names[q] << " = " << vf::dec(v) << " but the rows that were set correspond to " << vf::dec(b.vals[q])); b.vals[q] = v; }
+      }
+    } else {
+      ParameterList pl; size_t only = fixedOnly >= 0 ? static_cast<size_t>(fixedOnly) : c.below(n * (n > 1 ? n - 1 : 1)); bool changed = false;
+      c.desc << (route == 1 ? "setParametersValues" : route == 2 ? "matchParametersValues" : "setParameterValue") << "{";
+      size_t idx = 0;
+      for (size_t i = 0; i < n; ++i) { vector<double> th = rowToThetas(rows[i]); for (size_t k = 0; k + 1 < n; ++k, ++idx) {
+        if (route == 3 && idx != only) continue;
+        c.desc << fullName(i, k) << "=" << vf::dec(th[k]) << " "; pl.addParameter(Parameter(fullName(i, k), th[k])); changed |= b.val(fullName(i, k)) != th[k]; b.val(fullName(i, k)) = th[k];
+        if (route == 3) b.T->setParameterValue(fullName(i, k), th[k]);
+      } }
+      c.desc << "}";
+      if (route == 1) b.T->setParametersValues(pl); else if (route == 2) b.T->matchParametersValues(pl);
+      if (route != 2 || changed) b.notified();   // matchParametersValues notifies only when a value changed
+    }
+  } else {
+    ParameterList pl; size_t only = fixedOnly >= 0 ? static_cast<size_t>(fixedOnly) : c.below(n); bool changed = false;
+    c.desc << (route == 1 ? "setParametersValues" : route == 2 ? "matchParametersValues" : "setParameterValue") << "{";
+    for (size_t i = 0; i < n; ++i) {
+      double lam = preset == 0 ? 0.5 : preset == 1 ? static_cast<double>(1 + (i % 7)) / 8 : preset == 2 ? c.pick({0.99, 0.999, 0.9999}) : c.real(0.001, 0.999);
+      if (route >= 3 && i != only) continue;
+      c.desc << acName(i) << "=" << vf::dec(lam) << " "; pl.addParameter(Parameter(acName(i), lam)); changed |= b.val(acName(i)) != lam; b.val(acName(i)) = lam;
+      if (route >= 3) b.T->setParameterValue(acName(i), lam);
+    }
+    c.desc << "}";
+    if (route == 1) b.T->setParametersValues(pl); else if (route == 2) b.T->matchParametersValues(pl);
+    if (route != 2 || changed) b.notified();
+  }
+  vector<vector<LD>> doc = documentedMatrix(b);
+  for (int q : queries) { c.desc << (q == 0 ? " getPij" : q == 1 ? " Pij" : " getEquilibriumFrequencies"); checkMatrixQuery(c, b, q, doc); }
+  for (size_t q = 0; q < b.names.size(); ++q) CHECK(b.T->getParameterValue(b.names[q]) == b.vals[q], "parameter " << b.names[q] << " = " << vf::dec(b.T->getParameterValue(b.names[q])) << ", requested " << vf::dec(b.vals[q]));
+}
+}  // namespace
+
+LAW(L6_builtin_matrix, RC, 3000, 150000, 160, "the equilibrium vector is asked after getPij(), or a slowly mixing chain, or >=2 parameter changes") {
+  bool full = !c.flag(); size_t n = full ? 1 + c.below(5) : 2 + c.below(4);   // auto-correlation needs "other states": n >= 2
+  c.desc << (full ? "FullHmmTransitionMatrix" : "AutoCorrelationTransitionMatrix") << " n=" << n;
+  BT b = makeBT(full, n);
+  int rounds = 1 + static_cast<int>(c.below(3)); bool eqAfterPij = false, slow = false;
+  for (int rd = 0; rd < rounds; ++rd) {
+    int route = rd == 0 ? static_cast<int>(c.below(full ? 5 : 4)) : 1 + static_cast<int>(c.below(full ? 4 : 3));
+    if (full && n == 1 && route != 4) route = 0;   // one state: no parameter
+    int preset = static_cast<int>(c.weighted({2, 2, 3, 3}));
+    vector<int> queries; int nq = 1 + static_cast<int>(c.below(5)); bool pij = false;
+    for (int q = 0; q < nq; ++q) { int k = static_cast<int>(c.below(3)); queries.push_back(k); if (k == 0) pij = true; if (k == 2 && pij) eqAfterPij = true; }
+    if (preset == 2) slow = true;
+    builtinRound(c, b, route, preset, queries);
+  }
+  c.nt(eqAfterPij || slow || rounds >= 2);
+}
+
+LAW(L6_builtin_enum, ENUM, 1, 1, 0, "the equilibrium vector is asked after getPij(), or a second parameter change") {
+  bool full = c.below(2) == 0; size_t n = 2 + c.below(2);
+  c.desc << (full ? "FullHmmTransitionMatrix" : "AutoCorrelationTransitionMatrix") << " n=" << n;
+  static const int PERM[6][3] = {{0, 1, 2}, {0, 2, 1}, {1, 0, 2}, {1, 2, 0}, {2, 0, 1}, {2, 1, 0}};
+  int route1 = static_cast<int>(c.below(full ? 5 : 4)), preset1 = static_cast<int>(c.below(2)), perm1 = static_cast<int>(c.below(6));
+  bool second = c.flag(); int route2 = 0, perm2 = 0;
+  if (second) { route2 = 1 + static_cast<int>(c.below(3)); perm2 = static_cast<int>(c.below(6)); }
+  BT b = makeBT(full, n);
+  builtinRound(c, b, route1, preset1, {PERM[perm1][0], PERM[perm1][1], PERM[perm1][2]}, 0);
+  if (second) builtinRound(c, b, route2, 1 - preset1, {PERM[perm2][0], PERM[perm2][1], PERM[perm2][2]}, 1);
+  c.nt(second || PERM[perm1][0] == 0 || (PERM[perm1][1] == 0 && PERM[perm1][0] == 1));
+}
+
+// =================================================================================== L7: likelihoods over the built-in transition models
+LAW(L7_builtin_loglik, RC, 1500, 60000, 480, "always (built-in transition model, every entry >= 0.2/n)") {
+  bool full = c.weighted({3, 1}) == 0; size_t n = full ? 1 + c.below(5) : 2 + c.below(4);
+  c.desc << (full ? "FullHmmTransitionMatrix" : "AutoCorrelationTransitionMatrix") << " n=" << n;
+  if (!full) c.excludeIfKnown("C13-autocorr-equilibrium");   // every likelihood starts from that vector
+  Spec s; s.n = static_cast<int>(n); s.L = 1 + static_cast<int>(c.below(10));
+  bool hasExtreme; s.tab = genTab(c, s.L, s.n, false, s.tabDesc, hasExtreme);
+  s.th[0] = genTheta(c); s.th[1] = s.tab->np > 1 ? genTheta(c) : 0;
+  s.bp = genBreaks(c, s.L, false);
+  // well-mixing rows: every entry >= 0.2/n (Dobrushin coefficient <= 0.8: any sensible computation of the stationary law has converged)
+  BT b = makeBT(full, n); ParameterList pl; double floor = 0.2 / static_cast<double>(n);
+  if (full) for (size_t i = 0; i < n; ++i) {
+    vector<double> q(n); double sum = 0; for (auto& x : q) { x = static_cast<double>(1 + c.below(8)); sum += x; }
+    vector<double> row(n); for (size_t j = 0; j < n; ++j) row[j] = floor + 0.8 * q[j] / sum;
+    vector<double> th = rowToThetas(row); for (size_t k = 0; k + 1 < n; ++k) { pl.addParameter(Parameter(fullName(i, k), th[k])); b.val(fullName(i, k)) = th[k]; }
+  } else for (size_t i = 0; i < n; ++i) { double lam = floor + (1 - floor * static_cast<double>(n)) * c.unit(); pl.addParameter(Parameter(acName(i), lam)); b.val(acName(i)) = lam; }
+  bool viaLikelihood = c.flag(); int alg = static_cast<int>(c.below(3)); size_t chunk = s.L == 1 ? 1 + c.below(2) : 2 + c.below(static_cast<uint64_t>(s.L));
+  c.desc << " L=" << s.L << " parameters{"; for (size_t q = 0; q < pl.size(); ++q) c.desc << pl[q].getName() << "=" << vf::dec(pl[q].getValue()) << " "; c.desc << "} set " << (viaLikelihood ? "through the likelihood object" : "on the transition object before construction")
+         << " th=(" << s.th[0] << "," << s.th[1] << ") breaks=" << showBp(s.bp) << " emissions{" << s.tabDesc << "} " << algName(alg);
+  c.nt();
+  if (!viaLikelihood && pl.size()) b.T->setParametersValues(pl);
+  auto emis = make_shared<Emis>(b.a, s.tab, s.th);
+  shared_ptr<HmmLikelihood> lik = makeLik(alg, b.a, b.T, emis, chunk);
+  if (viaLikelihood && pl.size()) lik->setParametersValues(pl);
+  if (!s.bp.empty()) lik->setBreakPoints(s.bp);
+  // reference: the matrix the object exposes, its exact stationary law
+  Ref r; r.n = s.n; r.L = s.L; r.P.assign(n, vector<LD>(n));
+  vector<vector<LD>> doc = documentedMatrix(b);
+  for (size_t i = 0; i < n; ++i) for (size_t j = 0; j < n; ++j) { r.P[i][j] = b.T->Pij(i, j); CHECK(fabsl(r.P[i][j] - doc[i][j]) <= ROW_TOL && r.P[i][j] >= floor - 1e-12, "Pij(" << i << "," << j << ") = " << static_cast<double>(r.P[i][j]) << " but the parameters give " << static_cast<double>(doc[i][j])); }
+  r.pi = stationaryLD(r.P);
+  r.e.assign(static_cast<size_t>(s.L), vector<LD>(n)); for (size_t t = 0; t < r.e.size(); ++t) for (size_t k = 0; k < n; ++k) r.e[t][k] = emisValue(*s.tab, t, k, s.th);
+  setBreaks(r, s.bp);
+  LogFB lg = refLog(r, true); string who = string(algName(alg)) + " over " + (full ? "FullHmmTransitionMatrix" : "AutoCorrelationTransitionMatrix");
+  if (alg != LOGS && scaledBackwardSkipped(c, lg)) throw vf::Skip();
+  checkLogLik(c, *lik, lg.logL, who);
+  if (alg == LOWM) return;
+  vector<vector<double>> post; lik->getHiddenStatesPosteriorProbabilities(post, false);
+  CHECK(post.size() == static_cast<size_t>(s.L), who << ": " << post.size() << " posterior rows");
+  for (size_t t = 0; t < post.size(); ++t) checkPosteriorRow(c, post[t], lg.post[t], who, t);
+  int k = static_cast<int>(c.below(static_cast<uint64_t>(s.tab->np)));
+  DerivGuards g = derivGuards(c, alg, s, r, lg, k);
+  if (!g.d1ok) return;
+  LD rd1, rd2; refDerivs(r, *s.tab, s.th, k, rd1, rd2);
+  double d1 = lik->getFirstOrderDerivative(varName(k));
+  CHECK(derivClose(d1, -rd1), who << ": getFirstOrderDerivative(" << varName(k) << ") = " << vf::dec(d1) << " but d(-log L)/d" << varName(k) << " = " << vf::dec(static_cast<double>(-rd1)));
+  if (!g.d2ok) return;
+  double d2 = lik->getSecondOrderDerivative(varName(k));
+  CHECK(derivClose(d2, -rd2), who << ": getSecondOrderDerivative(" << varName(k) << ") = " << vf::dec(d2) << " but d2(-log L)/d" << varName(k) << "^2 = " << vf::dec(static_cast<double>(-rd2)));
 }
 
 static struct Init { Init() { vf::G().resetHook = [] { vf::quietBpp(); vf::installAudit(); }; } } init_;
